@@ -210,6 +210,7 @@ pub fn scalar_c14(rng: &mut Rng, n: usize) -> Vec<f64> {
         f64::INFINITY,
         f64::NEG_INFINITY,
         f64::NAN,
+        -f64::NAN,
         f64::MAX,
         f64::MIN,
         f64::MIN_POSITIVE,
@@ -250,6 +251,8 @@ pub enum WeightKind {
     WideZeros,
     ZeroFirst,
     ZeroRuns,
+    /// every weight exactly 0 or 1 (sum w == sum w^2 without all weights being one)
+    ZeroOne,
 }
 
 /// (x, w) pairs for C08: x as C01, w in {0} U [1e-6, 1e6], sum w > 0 overall (checked by caller).
@@ -263,6 +266,7 @@ pub fn weighted_c08(rng: &mut Rng, n: usize) -> (Vec<(f64, f64)>, DataMeta, Weig
         WeightKind::WideZeros,
         WeightKind::ZeroFirst,
         WeightKind::ZeroRuns,
+        WeightKind::ZeroOne,
     ];
     let kind = kinds[rng.usize(kinds.len())];
     let zero_rate = rng.f() * 0.6;
@@ -296,6 +300,13 @@ pub fn weighted_c08(rng: &mut Rng, n: usize) -> (Vec<(f64, f64)>, DataMeta, Weig
                         1.0
                     } else {
                         wide
+                    }
+                }
+                WeightKind::ZeroOne => {
+                    if rng.chance(0.4) {
+                        0.0
+                    } else {
+                        1.0
                     }
                 }
                 WeightKind::ZeroRuns => {
@@ -339,8 +350,15 @@ pub fn weights_c17(rng: &mut Rng, n: usize) -> Vec<f64> {
 /// (x, y) pairs for C09: correlations from -1 to 1 incl. exactly collinear, independent offsets.
 pub fn pairs_c09(rng: &mut Rng, n: usize) -> (Vec<(f64, f64)>, DataMeta, u8) {
     let (xs, meta) = scalar_c01(rng, n);
-    let mode = rng.below(6) as u8;
+    let mode = rng.below(7) as u8;
     let ys: Vec<f64> = match mode {
+        6 => {
+            // exactly-in-real-arithmetic collinear with a random (often negative) slope and an
+            // intercept: after rounding |pearson| may overshoot 1 by an ulp
+            let b = if rng.chance(0.7) { -(0.5 + 3.0 * rng.f()) } else { 0.5 + 3.0 * rng.f() };
+            let a = rng.normal() * 3.0;
+            xs.iter().map(|&x| clamp30(a + b * x)).collect()
+        }
         0 => xs.clone(),                                  // rho = 1 exactly
         1 => xs.iter().map(|&x| -x).collect(),            // rho = -1 exactly
         2 => xs.iter().map(|&x| 2.0 * x).collect(),       // collinear, exact in binary
@@ -376,6 +394,11 @@ fn clamp30(x: f64) -> f64 {
 
 /// run length n: mostly tiny, often medium, sometimes large
 pub fn pick_n(rng: &mut Rng, big: usize) -> usize {
+    // rarely: a sequence long enough for one operand of a merge to be thousands of times
+    // larger than the other (size-ratio fast paths)
+    if rng.below(60) == 0 {
+        return rng.range(4100, 9000);
+    }
     match rng.below(20) {
         0 => 0,
         1 => 1,
